@@ -240,6 +240,11 @@ func checkC13(w *World, r *Recorder) propInfo {
 	// K5: the container's emptiness test, which decides between the
 	// missing-mandatory class and the walk that reports wrong-syntax
 	ruleIsEmptyMeansNoEntries(w, r, "C13-K5")
+	// K6: a profile mismatch yields the wrong-profile class and a match no
+	// error, with "match" meaning equality with the object's own canonical
+	// profile (the GetProfile cells, C07-P4; K3 compares classes per outcome
+	// but not which values fall into which outcome)
+	importRules(w, r, checkC07, "C13-K6", func(o *Oblig) bool { return o.Rule == "C07-P4" })
 
 	r.Floor("C13-K1", 11)
 	r.Floor("C13-K2", 40)
